@@ -4,6 +4,7 @@ import (
 	"errors"
 	"fmt"
 	"html/template"
+	"strings"
 	"time"
 
 	"verifmc/engine"
@@ -101,6 +102,11 @@ func (e Embedded) Hello() string { return "emb " + e.X }
 
 type WithNilEmbedded struct{ *Embedded }
 
+// WithNilStringer promotes String() through an embedded pointer that is nil; WithNilStringerIface
+// embeds a nil fmt.Stringer interface. Printing either must not panic.
+type WithNilStringer struct{ *ValStringer }
+type WithNilStringerIface struct{ fmt.Stringer }
+
 type countIter struct{ n, max int }
 
 func (c *countIter) Next() interface{} {
@@ -151,4 +157,106 @@ func CorpusContext() *plush.Context {
 		return "", fmt.Errorf("no partial %q", name)
 	})
 	return c
+}
+
+// Polymorphic receivers: one AST node evaluated with receivers of different Go types whose fields
+// and methods of the same name sit at different positions (anything remembered per node or per
+// name about a receiver's layout is wrong for the next receiver).
+
+type PolyA struct {
+	ID   int
+	Name string
+}
+type PolyB struct{ Name string }
+type PolyC struct {
+	Other, Another string
+	Name           string
+}
+
+func (PolyA) Alpha() string         { return "A.Alpha" }
+func (PolyA) Describe(n int) string { return fmt.Sprint("A.Describe", n) }
+func (PolyB) Describe(n int) string { return fmt.Sprint("B.Describe", n) }
+func (PolyB) Zeta() string          { return "B.Zeta" }
+func (p *PolyC) Beta() string       { return "C.Beta" }
+func (PolyC) Alpha() string         { return "C.Alpha" }
+func (PolyC) Describe(n int) string { return fmt.Sprint("C.Describe", n) }
+func (PolyC) Gamma() string         { return "C.Gamma" }
+
+type PolyCase struct {
+	Name, Src, Want string
+	Execs           []func(c *plush.Context) // contexts for consecutive executions of ONE parsed template
+}
+
+func PolyCases() []PolyCase {
+	a, b, c := PolyA{1, "a"}, PolyB{"b"}, PolyC{"o", "n", "c"}
+	vals := map[string]interface{}{"a": a, "b": b, "c": c, "pc": &c}
+	var out []PolyCase
+	orders := [][]string{{"a", "b", "c"}, {"c", "b", "a"}, {"b", "c", "a", "b"}, {"pc", "c", "pc"}, {"c", "pc", "c"}, {"a", "pc", "b"}}
+	bodies := []struct {
+		name, src string
+		want      func(k string) string
+	}{
+		{"field", `<%= x.Name %>;`, func(k string) string { return map[string]string{"a": "a", "b": "b", "c": "c", "pc": "c"}[k] + ";" }},
+		{"method", `<%= x.Describe(7) %>;`, func(k string) string {
+			return map[string]string{"a": "A.Describe7", "b": "B.Describe7", "c": "C.Describe7", "pc": "C.Describe7"}[k] + ";"
+		}},
+		{"field+method", `<%= x.Name %>/<%= x.Describe(1) %>;`, func(k string) string {
+			return map[string]string{"a": "a/A.Describe1", "b": "b/B.Describe1", "c": "c/C.Describe1", "pc": "c/C.Describe1"}[k] + ";"
+		}},
+		{"indexed", `<%= one[0].Name %>/<%= one[0].Describe(2) %>;`, func(k string) string {
+			return map[string]string{"a": "a/A.Describe2", "b": "b/B.Describe2", "c": "c/C.Describe2", "pc": "c/C.Describe2"}[k] + ";"
+		}},
+		{"via-helper", `<%= idv(x).Name %>/<%= idv(x).Describe(3) %>;`, func(k string) string {
+			return map[string]string{"a": "a/A.Describe3", "b": "b/B.Describe3", "c": "c/C.Describe3", "pc": "c/C.Describe3"}[k] + ";"
+		}},
+	}
+	for _, ord := range orders {
+		var list []interface{}
+		for _, k := range ord {
+			list = append(list, vals[k])
+		}
+		for _, bd := range bodies {
+			var want strings.Builder
+			for _, k := range ord {
+				want.WriteString(bd.want(k))
+			}
+			ord, bd, list := ord, bd, list
+			// one loop over a mixed slice
+			body := strings.Replace(bd.src, "one[0]", "[x][0]", -1)
+			out = append(out, PolyCase{
+				Name: "loop over " + strings.Join(ord, ",") + " " + bd.name,
+				Src:  `<%= for (x) in mixed { %>` + body + `<% } %>`, Want: want.String(),
+				Execs: []func(c *plush.Context){func(c *plush.Context) { c.Set("mixed", list) }},
+			})
+			// one parsed template executed once per receiver
+			pc := PolyCase{Name: "executions " + strings.Join(ord, ",") + " " + bd.name, Src: bd.src, Want: want.String()}
+			for _, k := range ord {
+				v := vals[k]
+				pc.Execs = append(pc.Execs, func(c *plush.Context) { c.Set("x", v); c.Set("one", []interface{}{v}) })
+			}
+			out = append(out, pc)
+		}
+	}
+	return out
+}
+
+// RunPoly executes a PolyCase: one parsed template, its executions in order, outputs concatenated.
+func RunPoly(pc PolyCase) (string, error) {
+	plush.CacheEnabled = false
+	t, err := plush.NewTemplate(pc.Src)
+	if err != nil {
+		return "", err
+	}
+	var sb strings.Builder
+	for _, set := range pc.Execs {
+		c := plush.NewContext()
+		c.Set("idv", func(v interface{}) interface{} { return v })
+		set(c)
+		out, err := t.Exec(c)
+		if err != nil {
+			return "", err
+		}
+		sb.WriteString(out)
+	}
+	return sb.String(), nil
 }
